@@ -2967,7 +2967,11 @@ class MemoryObjectStore(PackCapableObjectStore):
                     # ``add_thin_pack`` already validates via
                     # ``PackStreamCopier.verify``; do the equivalent here.
                     p.check()
-                    for obj in PackInflater.for_pack_data(p, self.get_raw):
+                    # Inflate everything first: an object that fails to
+                    # resolve or parse must not leave the ones before it
+                    # behind in the store.
+                    objs = list(PackInflater.for_pack_data(p, self.get_raw))
+                    for obj in objs:
                         self.add_object(obj)
                 finally:
                     p.close()
